@@ -141,7 +141,11 @@ def window_rules(prog, res, f):
             continue
         c0 = ir.strip(c)
         if isinstance(c0, dict) and c0.get("k") == "bin" and c0["op"] in (">=", ">", "=="):
-            if any(y.get("k") == "mem" and y["f"] == "filter_window_frames" for y in ir.walk(c0)):
+            sides = (c0["l"], c0["r"])
+            has_win = [any(y.get("k") == "mem" and y["f"] == "filter_window_frames" for y in ir.walk(x)) for x in sides]
+            # the window test compares a running count (an lvalue) with the window size
+            if (has_win[0] and not has_win[1] and ir.ap(sides[1]) and not ir.is_const(sides[1])) or \
+                    (has_win[1] and not has_win[0] and ir.ap(sides[0]) and not ir.is_const(sides[0])):
                 tests.append(b)
     if not tests:
         raise AnalysisBroken("window-complete test not found in %s" % f.name)
